@@ -240,8 +240,12 @@ class AnchorError(Exception):
 
 def load_program(fresh=False):
     d, info = _extract.extract(fresh=fresh)
-    prog = Program(_extract.load(d))
-    prog.info = info
+    data = _extract.load(d)
+    from . import inline
+    n = inline.apply(data)
+    prog = Program(data)
+    prog.info = dict(info)
+    prog.info["inlined_call_sites"] = n
     return prog
 
 
